@@ -344,9 +344,13 @@ def oracle(ctx, volume=1):
                 "re-estimation, one generated noisy object, or one evaluation of the built-in physicality check; "
                 "non-trivial = more than one repetition and sample size, or a violating estimate; distinct by configuration")
     ctx.partial += [
-        {"theorem": "partition_independent_partial",
-         "missing": "tasks whose result depends on the state of a shared loss / algorithm object (hypothesis of the theorem; counter-example partition_independent_fails)"},
-        {"theorem": "flow_streams_distinct", "missing": "injectivity of SeedSequence.spawn and MT19937 seeding is assumed"},
+        {"theorem": "partition_independent_partial / reest_reproduces_partial",
+         "missing": "tasks / estimates whose result depends on the state of a shared loss / algorithm object (hypothesis of the theorems; counter-examples partition_independent_fails and the example after reest_reproduces_partial)"},
+        {"theorem": "depol_convex_physical_partial",
+         "missing": "convexity for states on abstract matrices only; physicality of depolarised gates / POVMs / measurement processes and of random-Lindbladian objects is observed by the oracle (is_physical of every generated object), not proved"},
+        {"theorem": "reps_distinct_streams",
+         "missing": "the generator not repeating within n segments from the actual start state is assumed (MT19937 quality)"},
+        {"theorem": "flow_streams_distinct", "missing": "distinctness of the generators seeded with the n spawned children is assumed (observed on numpy by seed_clause)"},
     ]
 
 
@@ -850,6 +854,8 @@ def correspondence(ctx):
         kind = rng.choice(["plin", "lin", "lossN", "loss00", "loss01", "loss10", "loss11", "other"])
         para = rng.random() < 0.5
         n_rep, n_num = rng.randrange(1, 4), rng.randrange(1, 4)
+        if t % 25 == 24:
+            n_rep = 0          # no stored result at all
         short = rng.random() < 0.08
         qt = StandardQst(povms, on_para_eq_constraint=para, schedules="all")
         rows, ers = [], []
@@ -876,6 +882,8 @@ def correspondence(ctx):
                 got = str(bool(StandardQTomographySimulationCheck(r).execute_physicality_violation_check(show_detail=False))).lower()
         except IndexError:
             got = "indexError"
+        if n_rep == 0:
+            ctx.count("check wiring with no stored result")
         pend.append(("check", {"kind": kind, "para": para, "rows": rows}, got, drv.ask("check", kind, int(para), n_num, *rows)))
         ctx.case(("check", kind, para, tuple(rows)), nontrivial=any(c == "0" for r_ in rows for c in r_),
                  sample={"op": "check", "kind": kind, "para": para, "rows": rows})
@@ -910,9 +918,25 @@ def correspondence(ctx):
             pend.append(("batches", {"n": n}, ests, drv.ask("batches", n, ",".join(str(i) for i in range(n)))))
             ctx.case(("loop", kind, n), sample={"op": "loop", "seed_arg": kind, "n_rep": n, "pattern": pattern(draws)})
             ctx.count(f"loop plumbing {kind}")
+    # the flow's per-repetition generators: equality pattern of the first draws and prefix stability, model (toy tree and
+    # generator) vs numpy (SeedSequence.spawn + MT19937)
+    from numpy.random import Generator, MT19937, SeedSequence
+    for t in range(6 if ctx.quick else 40):
+        seed = rng.randrange(1, 10 ** 6)
+        n = rng.randrange(2, 7)
+        real = [float(Generator(MT19937(sq)).random()) for sq in SeedSequence(seed).spawn(n + 1)]
+        pend.append(("flow", {"seed": seed, "n": n}, (pattern(real[:n]), pattern(real)),
+                     (drv.ask("flow", seed % 1000, n), drv.ask("flow", seed % 1000, n + 1))))
+        ctx.case(("flowspawn", seed, n), sample={"op": "flow", "seed": seed, "n_rep": n})
+        ctx.count("flow spawn patterns")
     out = drv.run()
     for op, inp, impl, i in pend:
         ctx.corr_ops.add(op)
+        if op == "flow":
+            a, b = out[i[0]].split(","), out[i[1]].split(",")
+            if (pattern(a), pattern(b)) != impl or b[:len(a)] != a:
+                ctx.disagree(op, inp, impl, (out[i[0]], out[i[1]]))
+            continue
         r = out[i]
         if op == "eps":
             t = r.split()
